@@ -228,6 +228,89 @@ func checkVerifyArgs(p *an.Prog, r *an.Run, a *authCtx, ep *Endpoint, g ssa.Call
 			}
 		}
 	}
+	// a fallback that verifies a re-packaged subset of the request (the deprecated keep-alive format signs peers and
+	// block number only) vouches for those fields alone: every other field of the request must be cleared on the
+	// fallback's success edge, or the pool acts on data nobody signed
+	if ok {
+		for _, el := range els {
+			mi, isMI := el.(*ssa.MakeInterface)
+			if !isMI {
+				continue
+			}
+			ld, isLd := mi.X.(*ssa.UnOp)
+			if !isLd || ld.Op != token.MUL {
+				continue
+			}
+			lit, isAl := ld.X.(*ssa.Alloc)
+			if !isAl {
+				continue
+			}
+			// is it a parameter's own cell? then the whole parameter is signed
+			own := false
+			for _, ref := range *lit.Referrers() {
+				if st, isSt := ref.(*ssa.Store); isSt && st.Addr == ssa.Value(lit) {
+					if _, isPrm := st.Val.(*ssa.Parameter); isPrm {
+						own = true
+					}
+				}
+			}
+			if own {
+				continue
+			}
+			for _, ex := range ep.Extra {
+				pst, isStruct := ex.Type().Underlying().(*types.Struct)
+				if !isStruct {
+					continue
+				}
+				covered := map[string]bool{}
+				for _, nd := range p.Derives(0, mi.X).Nodes {
+					if fa, isFA := nd.(*ssa.FieldAddr); isFA {
+						if root, _ := an.RootPath(fa); an.Unspill(&ssa.UnOp{Op: token.MUL, X: root}) == ssa.Value(ex) || root == ssa.Value(ex) {
+							if fv := an.FieldOf(fa); fv != nil {
+								covered[fv.Name()] = true
+							}
+						}
+					}
+					if fl, isF := nd.(*ssa.Field); isF && an.Unspill(fl.X) == ssa.Value(ex) {
+						if fv := an.FieldOf(fl); fv != nil {
+							covered[fv.Name()] = true
+						}
+					}
+				}
+				if len(covered) == 0 {
+					continue
+				}
+				noSucc := an.ReachAvoiding(ep.Fn, an.EdgeSet(an.ErrEdges(g).Succ))
+				for i := 0; i < pst.NumFields(); i++ {
+					fname := pst.Field(i).Name()
+					if covered[fname] {
+						continue
+					}
+					cleared := false
+					an.AllInstrs(ep.Fn, func(in ssa.Instruction) {
+						st, isSt := in.(*ssa.Store)
+						if !isSt || noSucc[st.Block()] {
+							return
+						}
+						fv := an.FieldOf(st.Addr)
+						if fv == nil || fv.Name() != fname {
+							return
+						}
+						root, _ := an.RootPath(st.Addr)
+						if an.Unspill(&ssa.UnOp{Op: token.MUL, X: root}) != ssa.Value(ex) {
+							return
+						}
+						if c, isC := st.Val.(*ssa.Const); isC && (c.IsNil() || c.Value == nil) {
+							cleared = true
+						}
+					})
+					if !cleared {
+						bad = append(bad, "the fallback signature covers only "+setString(covered)+" of "+ex.Name()+"; field "+fname+" is not cleared on the fallback's success edge, so the endpoint acts on a part of the request that nothing signed")
+					}
+				}
+			}
+		}
+	}
 	// the parameters are verified as received: no write to a request parameter can reach the verify call
 	// (a clamped, defaulted or normalised parameter is not what the caller signed)
 	prmSet := map[*ssa.Parameter]bool{ep.Sig: true, ep.ID: true, ep.Nonce: true}
@@ -371,7 +454,38 @@ func checkWrapper(p *an.Prog, r *an.Run, w *ssa.Function) {
 			return
 		}
 		if definitelyNonNilError(res) {
-			bad = append(bad, "the wrapper refuses at "+p.Pos(ret.Pos())+" although neither request.Verify nor the nonce store has refused: a correctly signed fresh request can be turned away")
+			// a refusal decided from the request itself (its parameters, the clock, constants) — e.g. an early "nonce
+			// older than the window" test — is not what this rule is about; one that consults state kept between
+			// requests (a failure counter, a blacklist, a rate limiter) is
+			stateless := true
+			nCtl := 0
+			for _, cc := range an.ControllingIfs(ret.Block()) {
+				nCtl++
+				for _, nd := range p.Derives(1, cc.If.Cond).Nodes {
+					switch x := nd.(type) {
+					case *ssa.FieldAddr, *ssa.Field:
+						if root, _ := an.RootPath(x.(ssa.Value)); root == ssa.Value(w.Params[0]) && w.Signature.Recv() != nil {
+							stateless = false
+						}
+					case *ssa.Global:
+						if !strings.HasPrefix(x.Name(), "Err") {
+							stateless = false
+						}
+					case *ssa.Lookup:
+						stateless = false
+					case *ssa.Call:
+						if cal := x.Common().StaticCallee(); cal != nil && p.InRepo(cal) && cal.Signature.Recv() != nil {
+							stateless = false
+						}
+						if x.Common().IsInvoke() {
+							stateless = false
+						}
+					}
+				}
+			}
+			if nCtl == 0 || !stateless {
+				bad = append(bad, "the wrapper refuses at "+p.Pos(ret.Pos())+" although neither request.Verify nor the nonce store has refused, on a condition that depends on state kept between requests: a correctly signed fresh request can be turned away")
+			}
 		}
 	})
 	if len(bad) > 0 {
@@ -908,6 +1022,37 @@ func runC06(p *an.Prog, r *an.Run, tier string) {
 		if nNonce == 0 {
 			bad = append(bad, "wrapper never stores the nonce")
 		}
+		// "leaves no trace": without a successful request.Verify the wrapper (and the helpers it calls) writes nothing
+		// into the service's own state either — a failure counter, throttle or blacklist keyed by the claimed identity is
+		// a trace that refused requests leave, and it is what later turns the legitimate owner away
+		var scanW func(fn *ssa.Function, reachAll bool, depth int)
+		seenW := map[*ssa.Function]bool{}
+		scanW = func(fn *ssa.Function, reachAll bool, depth int) {
+			if seenW[fn] || depth > 2 {
+				return
+			}
+			seenW[fn] = true
+			an.AllInstrs(fn, func(in ssa.Instruction) {
+				if !reachAll && !reach[in.Block()] {
+					return
+				}
+				if addr, ok := sharedWrite(in); ok {
+					// re-initialising an unset field of a fresh receiver aside, any such write counts
+					_ = addr
+					bad = append(bad, "service state is written at "+p.Pos(in.Pos())+" ("+an.FuncName(fn)+") for a request whose signature has not been verified: refused requests leave a trace")
+				}
+				if c, ok := in.(ssa.CallInstruction); ok {
+					if _, isGo := in.(*ssa.Go); isGo {
+						return
+					}
+					if cal := c.Common().StaticCallee(); cal != nil && p.InRepo(cal) && cal.Pkg == w.Pkg && cal.Signature.Recv() != nil && w.Signature.Recv() != nil &&
+						types.Identical(cal.Signature.Recv().Type(), w.Signature.Recv().Type()) {
+						scanW(cal, true, depth+1)
+					}
+				}
+			})
+		}
+		scanW(w, false, 0)
 		r.Check(len(bad) == 0, "nonce-after-sig", name, w.Pos(), "nonce is checked and saved only past the success edge of request.Verify", "%s", strings.Join(bad, "; "))
 	}
 	for _, ep := range a.endpoints {
